@@ -30,7 +30,7 @@ RULE = (
 STATE_MEASURE = "(operation kind sequence, fault site) and heap shapes (who was copied from whom, cov/maneuver presence)"
 PROBES = [
     "fault_fired_natural", "fault_fired_injected", "atomic_failure_checked", "drag_cov_with_state",
-    "mutation_with_relatives", "pickle_across_nodes", "pickle_with_cov", "access_checked", "foreign_name_rejected", "still_usable_after_failure",
+    "mutation_with_relatives", "pickle_across_nodes", "pickle_with_cov", "access_checked", "foreign_name_rejected", "still_usable_after_failure", "infos_checked",
 ]
 REAL_VS_STUB = "real: StateVector/Orbit/Cov/forms/frames/propagators, pickle; stub: none (the injected faults are raising wrappers around real callees in the node's private package copy); model: snapshots (bytes, labels, identities) of every heap object before each operation"
 ASSUMPTIONS = ["asynchronous exceptions (KeyboardInterrupt/MemoryError at an arbitrary bytecode) are not injected: the statement speaks of a form or frame change that fails", "mutating the inside of a Man object shared by a copy and its source is not exercised (list-level independence only)"]
@@ -71,7 +71,7 @@ def gen_plan(rng, tier, i):
         objs.append(spec)
     ops = []
     n = rng.randint(2, 6)
-    kinds = ["copy", "copy", "set_form", "set_form", "set_frame", "set_frame", "assign", "meta", "man", "cov_set", "cov_frame", "as_orbit", "as_sv", "pickle", "access", "access"]
+    kinds = ["copy", "copy", "set_form", "set_form", "set_frame", "set_frame", "assign", "meta", "man", "cov_set", "cov_frame", "as_orbit", "as_sv", "pickle", "access", "access", "infos", "infos"]
     for _ in range(n):
         k = rng.choice(kinds)
         op = {"op": k, "obj": rng.randrange(8)}
@@ -391,6 +391,37 @@ class Heap:
             else:
                 ctx.violate("element-access", {"kind": "foreign_name_accepted", "form": o.form.name, "name": foreign}, f"{where}: object {j} in form '{o.form.name}' answers to '{foreign}', an element name of another form")
 
+    def derived_view(self, j, where):
+        """The derived quantities an object reports about itself (obj.infos) describe its *current* values: they are observable
+        data too, so a change of one object (or of the object itself) must never leave another object's - or its own - report behind."""
+        ctx = self.ctx
+        o = self.objs[j]
+        if not finite(o):
+            return
+        try:
+            kep = np.array(o.copy(form="keplerian"), dtype=float)
+            sph = np.array(o.copy(form="spherical"), dtype=float)
+        except Exception:  # noqa
+            return
+        if not (np.all(np.isfinite(kep)) and np.all(np.isfinite(sph))):
+            return
+        ctx.checks += 1
+        try:
+            inf = o.infos
+            got_k = np.array(inf.kep, dtype=float)
+            got_s = np.array(inf.sphe, dtype=float)
+            r = float(inf.r)
+        except Exception as e:  # noqa
+            ctx.violate("no-aliasing", {"kind": "infos_unusable"}, f"{where}: obj.infos of object {j} raises {type(e).__name__}: {e}")
+            return
+        ctx.probe("infos_checked")
+        if got_k.tobytes() != kep.tobytes() or got_s.tobytes() != sph.tobytes() or r != sph[0]:
+            ctx.violate(
+                "no-aliasing",
+                {"kind": "infos_describes_other_values", "related": any(self.related(j, x) for x in range(len(self.objs)) if x != j)},
+                f"{where}: object {j}: infos reports keplerian elements {got_k} / radius {r} but the object's own values give {kep} / {sph[0]}",
+            )
+
     # ------------------------------------------------------------ operations
     def resolve_frame(self, o, name, fail):
         if fail and fail["kind"] == "natural":
@@ -418,6 +449,8 @@ class Heap:
                 getattr(self, "op_" + k)(j, o, op, fail, before, where, phys_before)
                 self.others_unchanged(before, self.receiver if hasattr(self, "receiver") else j, where)
                 self.no_shared_memory(where)
+                for jj in range(len(self.objs)):
+                    self.derived_view(jj, where)
             ctx.ops_done += 1
             ctx.ev(k, j, fhex(np.asarray(self.objs[j], dtype=float)), self.objs[j].form.name, self.objs[j].frame.name, "fail" if fail else "")
         with n:
@@ -790,6 +823,18 @@ class Heap:
                     ctx.violate("round-trip", {"kind": "unpickled_cov_converts_differently"}, f"{where}: the covariance of the unpickled object converts differently to {tgt}")
             except Exception as e:  # noqa
                 ctx.violate("round-trip", {"kind": "unpickled_object_broken", "had_cov": True}, f"{where}: the covariance of the unpickled object cannot change frame: {type(e).__name__}: {e}")
+
+    def op_infos(self, j, o, op, fail, before, where, _):
+        """Reading the derived quantities is a pure query."""
+        self.receiver = j
+        try:
+            inf = o.infos
+            _ = (inf.kep, inf.sphe, inf.n, inf.pericenter, inf.energy)
+        except Exception:  # noqa
+            return
+        self.ctx.checks += 1
+        if snap(o) != before[j]:
+            self.ctx.violate("pure-conversion", {"kind": "receiver_changed_by_infos"}, f"{where}: reading obj.infos modified the object")
 
     def op_access(self, j, o, op, fail, before, where, _):
         self.receiver = j
